@@ -95,6 +95,22 @@ func effect(addr uint16, cart uint8) []span {
 	return nil // unmapped I/O
 }
 
+// nr52Bits returns the NR52 bits a write to addr may change (FF = no restriction beyond the
+// effect set: the power register itself and addresses that cannot change NR52 at all).
+func nr52Bits(addr uint16) uint8 {
+	switch {
+	case addr >= 0xff10 && addr <= 0xff14:
+		return 0x01
+	case addr >= 0xff16 && addr <= 0xff19:
+		return 0x02
+	case addr >= 0xff1a && addr <= 0xff1e:
+		return 0x04
+	case addr >= 0xff20 && addr <= 0xff23:
+		return 0x08
+	}
+	return 0xff
+}
+
 func sweep(m *rig.Machine, img *[0x10000]byte) {
 	for a := 0; a < 0x10000; a++ {
 		img[a] = lockstep.Peek(m, uint16(a))
@@ -193,20 +209,22 @@ func run(c *rig.Ctx) {
 				mw := m.Mem.Write
 				mw(0xff26, 0x80)
 				mw(0xff10, r.U8())
-				mw(0xff11, r.U8())
+				// length counters are often about to expire (one or two ticks left)
+				ln := func() uint8 { return r.Pick8([]uint8{0x3f, 0xff, 0x3e, r.U8(), r.U8()}) }
+				mw(0xff11, ln())
 				mw(0xff12, 0xf0|r.U8()&7)
 				mw(0xff13, r.U8())
 				mw(0xff14, 0x80|r.U8()&0x47)
-				mw(0xff16, r.U8())
+				mw(0xff16, ln())
 				mw(0xff17, 0xf0|r.U8()&7)
 				mw(0xff18, r.U8())
 				mw(0xff19, 0x80|r.U8()&0x47)
 				mw(0xff1a, 0x80)
-				mw(0xff1b, r.U8())
+				mw(0xff1b, ln())
 				mw(0xff1c, r.U8())
 				mw(0xff1d, r.U8())
 				mw(0xff1e, 0x80|r.U8()&0x47)
-				mw(0xff20, r.U8())
+				mw(0xff20, ln())
 				mw(0xff21, 0xf0|r.U8()&7)
 				mw(0xff22, r.U8())
 				mw(0xff23, 0x80|r.U8()&0x40)
@@ -248,6 +266,11 @@ func run(c *rig.Ctx) {
 			case 2:
 				val = r.Pick8([]uint8{0x0a, 0x80, 0x7f, 0x01, 0x40, 0xc0})
 			}
+			if k >= 2048+256 && k < 2048+256+800 && (addr == 0xff14 || addr == 0xff19 || addr == 0xff1e || addr == 0xff23) && r.Chance(1, 2) {
+				// length enabled without a trigger (the extra length clock may expire this
+				// channel - and only this channel)
+				val = r.Pick8([]uint8{0x40, 0x47, 0x41, 0x00})
+			}
 			lcdOn := before[0xff40]&0x80 != 0
 			soundOn := before[0xff26]&0x80 != 0
 			m.Mem.Write(addr, val)
@@ -258,6 +281,11 @@ func run(c *rig.Ctx) {
 				allowed = []span{{addr, addr}}
 			}
 			changed := 0
+			if m52 := nr52Bits(addr); m52 != 0xff && (before[0xff26]^after[0xff26])&^m52 != 0 {
+				c.Violate("write-"+className(addr)+"-changes-another-channel-status",
+					fmt.Sprintf("cart %02X, sound on=%v: writing %02X to %04X changed NR52 %02X -> %02X: a channel's registers may switch only that channel's status bit", cart, soundOn, val, addr, before[0xff26], after[0xff26]),
+					map[string]any{"addr": fmt.Sprintf("%04X", addr), "value": val, "write_index": k, "program": p.Describe()})
+			}
 			for a := 0; a < 0x10000; a++ {
 				if before[a] != after[a] {
 					changed++
